@@ -1,1 +1,199 @@
 //! Verification hooks (trackers group); see `mod.rs`.
+//!
+//! * schedule points for the lock-free [`Counter`](crate::utils::Counter),
+//! * public wrappers of `Counter`, `PeerTracker` (and, further below, the shrex `PoolTracker`).
+
+use std::sync::{Arc, RwLock};
+use std::time::Duration;
+
+use libp2p::swarm::ConnectionId;
+use libp2p::{PeerId, ping};
+use tokio::sync::watch;
+
+use crate::events::EventChannel;
+use crate::peer_tracker::{PeerTracker, PeerTrackerInfo};
+
+// ------------------------------------------------------------------------------------------
+// schedule points
+
+/// Callback invoked at every schedule point with the point's label.
+pub type Scheduler = Arc<dyn Fn(&'static str) + Send + Sync + 'static>;
+
+static SCHEDULER: RwLock<Option<Scheduler>> = RwLock::new(None);
+
+/// Install (or with `None` remove) the process-wide scheduler callback.
+pub fn set_scheduler(s: Option<Scheduler>) {
+    *SCHEDULER.write().unwrap_or_else(|e| e.into_inner()) = s;
+}
+
+/// A schedule point: a no-op unless a scheduler callback is installed.
+#[inline]
+pub fn sched_point(label: &'static str) {
+    let s = SCHEDULER
+        .read()
+        .unwrap_or_else(|e| e.into_inner())
+        .as_ref()
+        .cloned();
+    if let Some(s) = s {
+        s(label)
+    }
+}
+
+// ------------------------------------------------------------------------------------------
+// Counter
+
+#[cfg(not(target_arch = "wasm32"))]
+pub use crate::utils::counter_verif_hooks::{VCounter, VCounterGuard, VCounterObserver};
+
+// ------------------------------------------------------------------------------------------
+// PeerTracker
+
+/// Plain-data view of one tracked peer.
+#[derive(Debug, Clone, PartialEq, Eq)]
+pub struct VPeerView {
+    pub connections: Vec<usize>,
+    pub connected: bool,
+    pub trusted: bool,
+    pub archival: bool,
+    pub full: bool,
+    /// 0 unknown, 1 bridge, 2 full, 3 light
+    pub kind: u8,
+    pub protected: bool,
+    /// The tags out of the queried ones the peer is protected with.
+    pub tags: Vec<u32>,
+    pub best_ping: Option<Duration>,
+}
+
+/// Public wrapper of the crate-private `PeerTracker`.
+pub struct VPeerTracker {
+    inner: PeerTracker,
+    _events: EventChannel,
+    watcher: watch::Receiver<PeerTrackerInfo>,
+}
+
+impl VPeerTracker {
+    #[allow(clippy::new_without_default)]
+    pub fn new() -> Self {
+        let events = EventChannel::new();
+        let inner = PeerTracker::new(events.publisher());
+        let watcher = inner.info_watcher();
+        VPeerTracker {
+            inner,
+            _events: events,
+            watcher,
+        }
+    }
+
+    /// `PeerTracker::info()`.
+    pub fn info(&self) -> PeerTrackerInfo {
+        self.inner.info()
+    }
+
+    /// What a subscriber of `info_watcher()` sees.
+    pub fn published(&self) -> PeerTrackerInfo {
+        self.watcher.borrow().to_owned()
+    }
+
+    pub fn add_peer_id(&mut self, peer: &PeerId) -> bool {
+        self.inner.add_peer_id(peer)
+    }
+
+    pub fn set_trusted(&mut self, peer: &PeerId, trusted: bool) {
+        self.inner.set_trusted(peer, trusted)
+    }
+
+    pub fn protect(&mut self, peer: &PeerId, tag: u32) -> bool {
+        self.inner.protect(peer, tag)
+    }
+
+    pub fn unprotect(&mut self, peer: &PeerId, tag: u32) -> bool {
+        self.inner.unprotect(peer, tag)
+    }
+
+    pub fn protected_len(&self, tag: u32) -> usize {
+        self.inner.protected_len(tag)
+    }
+
+    pub fn add_connection(&mut self, peer: &PeerId, conn: usize) {
+        self.inner
+            .add_connection(peer, ConnectionId::new_unchecked(conn))
+    }
+
+    pub fn remove_connection(&mut self, peer: &PeerId, conn: usize) {
+        self.inner
+            .remove_connection(peer, ConnectionId::new_unchecked(conn))
+    }
+
+    pub fn on_agent_version(&mut self, peer: &PeerId, agent_version: &str) {
+        self.inner.on_agent_version(peer, agent_version)
+    }
+
+    pub fn on_ping(&mut self, peer: &PeerId, conn: usize, rtt: Option<Duration>) {
+        self.inner.on_ping_event(&ping::Event {
+            peer: *peer,
+            connection: ConnectionId::new_unchecked(conn),
+            result: rtt.ok_or(ping::Failure::Timeout),
+        })
+    }
+
+    pub fn mark_as_archival(&mut self, peer: &PeerId) {
+        self.inner.mark_as_archival(peer)
+    }
+
+    pub fn gc(&mut self) {
+        self.inner.gc()
+    }
+
+    pub fn is_connected(&self, peer: &PeerId) -> bool {
+        self.inner.is_connected(peer)
+    }
+
+    pub fn is_protected(&self, peer: &PeerId) -> bool {
+        self.inner.is_protected(peer)
+    }
+
+    pub fn peers(&self) -> Vec<PeerId> {
+        self.inner.peers().map(|p| *p.id()).collect()
+    }
+
+    /// All `(peer, connection)` pairs of `all_connections()`.
+    pub fn all_connections(&self) -> Vec<(PeerId, String)> {
+        self.inner
+            .all_connections()
+            .map(|(p, c)| (*p, c.to_string()))
+            .collect()
+    }
+
+    /// View of a tracked peer; `tags` are the protection tags to query.
+    pub fn peer(&self, peer: &PeerId, tags: &[u32]) -> Option<VPeerView> {
+        use crate::peer_tracker::NodeKind;
+
+        let p = self.inner.peer(peer)?;
+        let mut connections: Vec<usize> = self
+            .inner
+            .connections(peer)
+            .map(|c| c.to_string().parse().expect("numeric connection id"))
+            .collect();
+        connections.sort();
+        Some(VPeerView {
+            connections,
+            connected: p.is_connected(),
+            trusted: p.is_trusted(),
+            archival: p.is_archival(),
+            full: p.is_full(),
+            kind: match p.node_kind() {
+                NodeKind::Unknown => 0,
+                NodeKind::Bridge => 1,
+                NodeKind::Full => 2,
+                NodeKind::Light => 3,
+            },
+            protected: p.is_protected(),
+            tags: tags
+                .iter()
+                .copied()
+                .filter(|t| p.is_protected_with_tag(*t))
+                .collect(),
+            best_ping: p.best_ping(),
+        })
+    }
+}
